@@ -51,7 +51,7 @@ def trial(seed_id, wt):
         sh('git checkout -q -- . && git clean -qfd', cwd=wt)
 
 
-def ingest(rnd):
+def ingest(rnd, only_pid=None):
     """Create /verif/seeded/Cxx-r<rnd>-k/ from the deliverables of the round's authors
     (/tmp/mut<rnd>-Cxx/out/patchK.diff, demoK.py, notes.json): patch, demo (worktree path made relative to
     DESPER_REPO), meta with the author's notes; demo confirmed both ways in a scratch worktree."""
@@ -64,6 +64,8 @@ def ingest(rnd):
     try:
         for src in sorted(pathlib.Path('/tmp').glob(f'mut{rnd}-C*')):
             pid = src.name.split('-')[1]
+            if only_pid and pid != only_pid:
+                continue
             try:
                 notes = json.loads((src / 'out' / 'notes.json').read_text())
             except Exception:       # noqa
@@ -102,7 +104,7 @@ def ingest(rnd):
 
 def main():
     if len(sys.argv) > 2 and sys.argv[1] == 'ingest':
-        only = ingest(sys.argv[2])
+        only = ingest(sys.argv[2], sys.argv[3] if len(sys.argv) > 3 else None)
         workers = 6
     else:
         only = None
